@@ -906,6 +906,32 @@ def allsat_decisions(rep, lg, tier):
                       _replay_src("parse", {"tag": "python", "root": "start", "w": sent}), "o2v_%d" % len(rep.violations))
 
 
+def probe_code_points(rep, lg):
+    """O1c: the real lexer *code* (blackbirdLexer.py around the automaton: constructor, input handling) on special code
+    points at the start and inside a script, against the tokenisation blackbird.g4 prescribes (concrete probes)"""
+    cps = [0xFEFF, 0xFFFE, 0x200B, 0x200E, 0x00A0, 0x0085, 0x2028, 0x2029, 0x0000, 0x0001, 0x001A, 0x007F, 0x0080, 0x00E9, 0x03C0, 0x2212, 0xFF10, 0xD7FF, 0xE000,
+           0xFFFD, 0xFFFF, 0x10000, 0x1F600, 0x10FFFF]
+    bad = []
+    n = 0
+    for cp in cps:
+        c = chr(cp)
+        for s in (c + "name prog", c, c + c, "name" + c + "prog", "name prog\nversion 1.0" + c, "# note" + c + "\nname x", "\"a" + c + "b\"", c + "\n" + c + "name x", "1" + c + "2", "q" + c + "0"):
+            n += 1
+            try:
+                real = _real_stream(lg, s)
+            except Exception as e:  # noqa
+                bad.append((s, "real lexer raises %s" % type(e).__name__))
+                continue
+            want = [(t, x) for (t, x) in lg.tokenize("G", s)]
+            if real != want:
+                bad.append((s, "real lexer gives %r, blackbird.g4 prescribes %r" % (_names(lg, real), _names(lg, want))))
+    rep.validated += n
+    rep.obligation("O1c real lexer on %d strings with special code points (byte-order mark, zero-width, separators, controls, astral) == blackbird.g4" % n,
+                   "holds" if not bad else "violated")
+    for s, what in bad[:2]:
+        rep.violation("O1c:%s" % "U+%04X" % ord(s[0]), "string %r: %s" % (s, what), _replay_src("lex", {"tag": "python", "s": s}), "o1c_%d" % len(rep.violations))
+
+
 def validate_corpus(rep, lg):
     """the repo's own scripts through real lexer vs both concrete tokenisers, and real parser vs CFG encoding"""
     import glob
@@ -1019,6 +1045,7 @@ def main():
         validate_parser(rep, lg, b["N_start"], 40 if t == "quick" else 200, rnd)
         validate_generated_code(rep, lg, 60 if t == "quick" else 400, rnd, 300 if t == "quick" else 3000)
         allsat_decisions(rep, lg, t)
+        probe_code_points(rep, lg)
         # every distinct non-python automaton gets its own language check (witness for the difference)
         for kind in ("lexer", "parser"):
             seen = []
